@@ -157,3 +157,21 @@ def is_const_path(suffix):
     def p(x):
         return isinstance(x, dict) and x.get("k") == "Path" and x.get("res") == "def" and path_ends(x.get("path"), suffix)
     return p
+
+
+def err_exits(root):
+    """(node, path conditions) of every point where the function (or an inlined helper under `?`) leaves with an error of its own
+    making: `return Err(..)` and an `Err(..)` in result position.  A rule that asks "for which values is the input rejected" evaluates
+    the reachability of these points — independent of whether the code says `if bad { return Err }` or `if good { return Ok }; Err`."""
+    from .db import path_conditions
+    tails = set()
+    _tail_ids(root, tails)
+    for n, ps in walk(root):
+        if any(p.get("k") == "Closure" for p in ps):
+            continue
+        is_err = lambda e: isinstance(peel(e), dict) and peel(e).get("k") in ("Call", "MethodCall") and (
+            path_ends(peel(e).get("callee") or "", ("Result::Err", "Err", "DicCompilationCtx::err")) or path_ends(peel(e).get("resolved") or "", ("DicCompilationCtx::err",)))
+        if n.get("k") == "Ret" and "e" in n and not (n.get("mac") and "desugar:QuestionMark" in n["mac"]) and is_err(n["e"]):
+            yield n, path_conditions(n["id"], root) or []
+        elif id(n) in tails and n.get("k") == "Call" and is_err(n) and not any(p.get("k") == "Ret" for p in ps[-2:]):
+            yield n, path_conditions(n["id"], root) or []
